@@ -285,6 +285,12 @@ func collectLeafStrings(n *sx.Node, out map[string]bool) {
 	case "f":
 		out[fmt.Sprintf("%f", flFromSx(n.List[2]))] = true
 		return
+	case "re":
+		// a native *regexp.Regexp: Serialize prints its source, which a later Unserialize (op sr) compiles again
+		if len(n.List) == 2 && n.List[1].IsStr {
+			out[n.List[1].Str] = true
+		}
+		return
 	}
 	for _, c := range n.List {
 		collectLeafStrings(c, out)
